@@ -16,6 +16,12 @@ Case file (one case per line; both sides print one line per case):
        -> "C <state words hex,...>"
   P <keyhex> <msghex|-> <msg offset> <key offset>    SipHash; offsets = misalignment from a 16-byte boundary
        -> "P plain=<> sse2=<> disp=<>[ def=<>,<>,<>]"
+  L <patternhex> <n> <chunking> <variant> <model flag>   long message = pattern (prime period) repeated to n bytes; one history
+       -> "L md5=<hex> sha1=<hex> sha256=<hex> sha512=<hex>"   (model only when the flag is 1: the extracted model is slow)
+  Z <n> <pre> <algos>                      n zero bytes from an anonymous mapping: <pre> one-byte calls, then ONE process() call
+       -> "Z md5=<hex> ..."                 (thorough tier, own harness process; never run on the model)
+A D line may carry a 4th token: the variant seed from which the harness derives, per call, the constructor / process()
+overload and argument type (see API_SURFACE) and where the half-fed object is copied / assigned / moved.
 The model prints the same line followed by " | spec <standard's value(s) from the extracted Coq spec>".
 """
 import hashlib, json, os, subprocess, sys
@@ -29,11 +35,58 @@ ALGOS = ["md5", "sha1", "sha256", "sha512"]
 BS = {"md5": 64, "sha1": 64, "sha256": 64, "sha512": 128}
 M64 = (1 << 64) - 1
 
+# every public entry point of the anchored files and how harness/C14/digest_harness.cpp reaches it ("X" = MD5, SHA1, SHA256,
+# SHA512; "x" = md5, sha1, sha256, sha512). Which one a given call uses is derived from the D/L case's variant seed.
+API_SURFACE = [
+    {"entry": "X::X()", "called": True, "by": "feed() ctor choice 0; S and Z cases"},
+    {"entry": "X::X(const void*, std::uint32_t)", "called": True, "by": "feed() ctor choice 1 (first chunk)"},
+    {"entry": "explicit X::X(tlx::string_view)", "called": True, "by": "feed() ctor choices 2-5: argument a tlx::string_view, a std::string, a std::string_view, a NUL-terminated const char* (chunks without 0x00)"},
+    {"entry": "X::process(const void*, std::uint32_t)", "called": True, "by": "feed() choice 0; (nullptr, 0) for empty chunks; single calls of up to 4 MiB (L) and 512 MiB (Z, thorough)"},
+    {"entry": "X::process(tlx::string_view)", "called": True, "by": "feed() choices 1-6: tlx::string_view (also default-constructed for empty chunks), std::string lvalue, std::string rvalue, std::string_view, const char*"},
+    {"entry": "X::finalize(void*)", "called": True, "by": "digest_case(): into an exact-size heap block, compared with digest()"},
+    {"entry": "X::digest()", "called": True, "by": "digest_case(), all_splits(); messages with 0x00 / 0xff / 0x80 at the first, middle and last digest byte are generated for every algorithm"},
+    {"entry": "X::digest_hex()", "called": True, "by": "digest_case(), long_case(), zero_case()"},
+    {"entry": "X::digest_hex_uc()", "called": True, "by": "digest_case()"},
+    {"entry": "X::kDigestLength", "called": True, "by": "size of the finalize() block and of digest()"},
+    {"entry": "X copy constructor / copy assignment / move constructor (implicit)", "called": True, "by": "feed(): a half-fed object is copied / assigned over another half-fed object / moved and feeding continues on the new object"},
+    {"entry": "x_hex(const void*, std::uint32_t)", "called": True, "by": "helper_all(), long_case()"},
+    {"entry": "x_hex(tlx::string_view)", "called": True, "by": "helper_all(): tlx::string_view, std::string, std::string_view, const char*"},
+    {"entry": "x_hex_uc(const void*, std::uint32_t)", "called": True, "by": "helper_all()"},
+    {"entry": "x_hex_uc(tlx::string_view)", "called": True, "by": "helper_all(): tlx::string_view, std::string, std::string_view, const char*"},
+    {"entry": "siphash_plain(const uint8_t key[16], const uint8_t*, size_t)", "called": True, "by": "P cases, key and message at offsets 0..7 from a 16-byte boundary, ending at the end of the heap block"},
+    {"entry": "siphash_sse2(const uint8_t key[16], const uint8_t*, size_t)", "called": True, "by": "P cases (same placement)"},
+    {"entry": "siphash(const uint8_t key[16], const uint8_t*, size_t)", "called": True, "by": "P cases: disp="},
+    {"entry": "siphash(const uint8_t*, size_t)  [default key]", "called": True, "by": "every P case: def[0]"},
+    {"entry": "siphash(const char*, size_t)  [default key]", "called": True, "by": "every P case: def[1]"},
+    {"entry": "siphash(tlx::string_view)  [default key]", "called": True, "by": "every P case: def[2]"},
+    {"entry": "siphash(std::string) / siphash(std::string_view)  [default key]", "called": True, "by": "every P case: def[3], def[4] (resolved to the value template before fixes/C14/02, to the new overloads after)"},
+    {"entry": "template <typename Type> siphash(const Type&)  [default key, object representation]", "called": True, "by": "P cases with |msg| in {1,2,3,4,8,12,16,32}: std::array<uint8_t,N>, and uint32_t / uint64_t for 4 / 8: tpl="},
+    {"entry": "siphash_load64_le(const uint8_t*)", "called": True, "by": "indirectly (siphash_plain)"},
+    {"entry": "xxx_compress (file-local)", "called": True, "by": "C cases through harness/C14/compress_*.cpp"},
+]
+
 translator_error = None
 try:
     ck.regen([digest_tables.generate])
 except RuntimeError as e:
     translator_error = str(e)
+
+# harness first: the one huge single-call case (Z) runs in its own process while Coq re-checks the theorems
+exe, log = ck.build_cpp("c14_harness", ["harness/C14/digest_harness.cpp", "harness/C14/compress_md5.cpp", "harness/C14/compress_sha1.cpp",
+                                        "harness/C14/compress_sha256.cpp", "harness/C14/compress_sha512.cpp"],
+                        repo_sources=["tlx/string/hexdump.cpp"])
+# one single process() call of 2^29 bytes (a 32-bit bit-length computation overflows exactly there), also after one
+# buffered byte. quick: one algorithm picked by the seed; thorough: all four, and the buffered variant.
+zcases = []
+if not ck.replay:
+    zcases = ["Z 536870912 0 md5,sha1,sha256,sha512", "Z 536870913 1 md5,sha256"] if ck.thorough() else \
+             ["Z 536870912 0 %s" % ["md5", "sha1", "sha256", "sha512"][ck.seed % 4]]
+elif json.load(open(ck.replay))["case"].startswith("Z"):
+    zcases = [json.load(open(ck.replay))["case"]]
+zfile = os.path.join(ck.scratch, "zcases.txt")
+open(zfile, "w").write("".join(c + "\n" for c in zcases))
+zproc = subprocess.Popen([exe, zfile], stdout=subprocess.PIPE, stderr=subprocess.STDOUT, universal_newlines=True) if (zcases and exe) else None
+
 pr = ck.prove() if translator_error is None else None
 
 
@@ -79,11 +132,28 @@ def expected_line(case):
         return "S ok n=%d " % cnt + " ".join(hashlib.new(a, msg).hexdigest() for a in ALGOS)
     if t[0] == "P":
         key = unhex(t[1]); msg = unhex(t[2]); v = "%016x" % sip24(key, msg)
-        s = "P plain=%s sse2=%s disp=%s" % (v, v, v)
-        if key == bytes(range(16)):
-            s += " def=%s,%s,%s" % (v, v, v)
+        d = "%016x" % sip24(bytes(range(16)), msg)
+        s = "P plain=%s sse2=%s disp=%s def=%s" % (v, v, v, ",".join([d] * 5))
+        if len(msg) in (1, 2, 3, 4, 8, 12, 16, 32):
+            s += " tpl=" + d
         return s
+    if t[0] == "L":
+        msg = long_msg(t[1], int(t[2]))
+        return "L " + " ".join("%s=%s" % (a, hashlib.new(a, msg).hexdigest()) for a in ALGOS)
+    if t[0] == "Z":
+        n = int(t[1]); out = []
+        for a in t[3].split(","):
+            h = hashlib.new(a); z = bytes(1 << 20)
+            for _ in range(n >> 20): h.update(z)
+            h.update(bytes(n & ((1 << 20) - 1)))
+            out.append("%s=%s" % (a, h.hexdigest()))
+        return "Z " + " ".join(out)
     return None
+
+
+def long_msg(pathex, n):
+    pat = bytes.fromhex(pathex)
+    return (pat * (n // len(pat) + 1))[:n]
 
 
 def expected_spec(case):
@@ -153,6 +223,9 @@ def carries(case):
     return False
 
 
+special = {}
+
+
 def gen_cases():
     cases = []
     thorough = ck.thorough()
@@ -168,7 +241,44 @@ def gen_cases():
         for rep in range(per_len):
             msg = rbytes(n)
             big = n > 2000
-            cases.append("D %s %s" % (hx(msg), chunkings_for(n, 1 if big else (3 if thorough else 2), drip=(not big) and (n % 8 == rep or n in (55, 56, 64, 112, 128)))))
+            cases.append("D %s %s %d" % (hx(msg), chunkings_for(n, 1 if big else (3 if thorough else 2), drip=(not big) and (n % 8 == rep or n in (55, 56, 64, 112, 128))),
+                                         0 if rng.chance(1, 8) else rng.range(1, 999999)))
+    # finalize / digest after zero process() calls, and after only empty ones
+    cases.append("D - e/0/0,0,0 %d" % rng.range(1, 999999))
+    # messages whose raw digest starts / ends with 0x00, starts with 0xff / 0x80, or has 0x00 in the middle (raw accessor
+    # through a C string or a signed char would truncate / sign-extend)
+    for a in ALGOS:
+        want = {"first00": lambda d: d[0] == 0, "last00": lambda d: d[-1] == 0, "firstff": lambda d: d[0] == 0xff,
+                "first80": lambda d: d[0] == 0x80, "mid00": lambda d: d[len(d) // 2] == 0}
+        base = rbytes(rng.range(1, 70), 3)
+        ctr = 0
+        while want and ctr < 400000:
+            m = base + ctr.to_bytes(4, "little"); ctr += 1
+            d = hashlib.new(a, m).digest()
+            for k in [k for k, f in want.items() if f(d)]:
+                del want[k]
+                cut_ = rng.below(len(m) + 1)
+                cases.append("D %s %d/%d,%d %d" % (hx(m), len(m), cut_, len(m) - cut_, rng.range(1, 999999)))
+                special[a + ":" + k] = special.get(a + ":" + k, 0) + 1
+    # long messages: ONE process() call with many whole blocks, with curlen_ == 0 and != 0 before it, a short tail call;
+    # lengths around 2^16 and 2^20; model only for the short ones (extracted model: ~7 ms per 64 bytes over the four digests)
+    def long_case(n, pre, tail, model):
+        pat = rbytes(251, 3)
+        sizes = ([pre] if pre else []) + [n - pre - tail] + ([tail] if tail else [])
+        cases.append("L %s %d %s %d %d" % (pat.hex(), n, ",".join(map(str, sizes)), rng.range(1, 999999) if rng.chance(3, 4) else 0, 1 if model else 0))
+    long_case(20000 + rng.below(3000), 0, 0, True)
+    long_case(24576 + 64 * rng.below(100), rng.range(1, 63), rng.below(2) * rng.range(1, 200), True)
+    for n in (65535, 65536, 65537):
+        long_case(n, rng.choice([0, 0, 1, 17, 63, 64, 65]), 0, thorough and n != 65536)
+    for n in (1048575, 1048576, 1048577):
+        long_case(n, rng.choice([0, 1, 63, 64, 127, 128, 129]), rng.below(2) * rng.range(1, 300), False)
+    long_case(rng.range(40, 120) * 1024 + rng.below(64), 0, rng.range(1, 63), False)
+    long_case(rng.range(40, 120) * 1024 + rng.below(64), rng.range(1, 127), 0, False)
+    long_case(rng.range(1, 4) * 1048576 + 64 * rng.below(1000), 0, 0, False)
+    long_case(rng.range(1, 4) * 1048576 + rng.below(100000), rng.range(1, 127), rng.range(0, 130), False)
+    if thorough:
+        for _ in range(6):
+            long_case(rng.range(30000, 3000000), rng.choice([0, rng.range(1, 127)]), rng.choice([0, rng.range(1, 127)]), False)
     # all 2-splits (and 3-splits for short messages) inside the harness
     for n in (range(0, 301) if thorough else range(0, 141)):
         cases.append("S %s 2" % hx(rbytes(n, 3)))
@@ -205,19 +315,34 @@ if ck.replay:
 else:
     cases = corpus + gen_cases()
     ncorpus = len(corpus)
+if ck.replay and cases[0].startswith("Z"):
+    cases = []
 casefile = os.path.join(ck.scratch, "cases.txt")
-open(casefile, "w").write("\n".join(cases) + "\n")
+open(casefile, "w").write("".join(c + "\n" for c in cases))
 
 # ------------------------------------------------------------------------------ run both sides
 found = False
-exe, log = ck.build_cpp("c14_harness", ["harness/C14/digest_harness.cpp", "harness/C14/compress_md5.cpp", "harness/C14/compress_sha1.cpp",
-                                        "harness/C14/compress_sha256.cpp", "harness/C14/compress_sha512.cpp"],
-                        repo_sources=["tlx/string/hexdump.cpp"])
 drv, dlog = ck.ocaml_driver("C14")
-stats = {"D": 0, "S": 0, "C": 0, "P": 0}
+stats = {"D": 0, "S": 0, "C": 0, "P": 0, "L": 0, "Z": 0}
 hist = {}
 distinct = set()
 samples = []
+
+
+string_obj_reported = False
+
+
+def string_object_only(a, want):
+    """P line differs from the standard only in def[3] / def[4] (the std::string / std::string_view arguments)"""
+    fa, fw = a.split(), want.split()
+    if len(fa) != len(fw): return False
+    for x, y in zip(fa, fw):
+        if x.startswith("def=") and y.startswith("def="):
+            da, dw = x[4:].split(","), y[4:].split(",")
+            if len(da) != 5 or da[:3] != dw[:3]: return False
+        elif x != y:
+            return False
+    return True
 
 
 def run_model(drv, cases, jobs=4):
@@ -227,6 +352,7 @@ def run_model(drv, cases, jobs=4):
         t = c.split()
         if t[0] == "D": return (len(t[1]) // 128 + 2) * (t[2].count("/") + 3)
         if t[0] == "S": return (len(t[1]) // 128 + 2) * 2
+        if t[0] == "L": return int(t[2]) // 64 + 2 if t[5] == "1" else 1
         return 1
     load = [0] * jobs
     assign = [[] for _ in range(jobs)]
@@ -256,7 +382,20 @@ if exe is None:
     ck.violation("correspondence harness does not compile against /repo", {"correspondence": "harness/C14/digest_harness.cpp", "log": log[-2500:]}, no_input=True)
 else:
     rc1, out1 = verif.sh([exe, casefile], timeout=3000)
-    impl = [l for l in out1.splitlines() if l[:2] in ("D ", "S ", "C ", "P ") or l == "?"]   # (sanitizer text is merged into stdout)
+    impl = [l for l in out1.splitlines() if l[:2] in ("D ", "S ", "C ", "P ", "L ") or l == "?"]   # (sanitizer text is merged into stdout)
+    nmain = len(cases)
+    if zproc is not None:
+        try:
+            zo, _ = zproc.communicate(timeout=1200)
+        except subprocess.TimeoutExpired:
+            zproc.kill(); zo = ""
+        zl = [l for l in zo.splitlines() if l.startswith("Z ")]
+        if rc1 == 0 and (zproc.returncode != 0 or len(zl) != len(zcases)):
+            rc1, out1 = (zproc.returncode or 1), zo
+            impl = impl + zl
+        elif rc1 == 0:
+            impl = impl + zl
+        cases = cases + zcases
     if rc1 != 0:
         # sanitizer abort / crash: the harness flushes after every case, so the offender is the next one
         found = True
@@ -271,7 +410,7 @@ else:
     else:
         # the model may be unavailable (a regenerated table broke a proof file): the search on the implementation
         # against the independent references still runs
-        model = run_model(drv, cases)[1] if drv is not None else None
+        model = (run_model(drv, cases[:nmain])[1] + ["Z skipped"] * (len(cases) - nmain)) if drv is not None else None
         for idx, c in enumerate(cases):
             a = impl[idx].strip() if idx < len(impl) else "<missing>"
             mline = model[idx].strip() if model is not None else None
@@ -285,6 +424,12 @@ else:
                 cls = "len>=990" if n >= 990 else "len%%64=%d" % (n % 64) if n % 64 in (0, 55, 56, 63) else "len%%128=%d" % (n % 128) if n % 128 in (111, 112, 119, 120, 127) else "other"
                 hist[kind + ":" + cls] = hist.get(kind + ":" + cls, 0) + 1
                 nontrivial = (kind == "D" and carries(c)) or (kind == "S" and n >= 2)
+            elif kind in ("L", "Z"):
+                n = int(c.split()[2 if kind == "L" else 1])
+                cls = "n<2^16" if n < 65535 else "n~2^16" if n <= 65537 else "n<2^20" if n < 1048575 else "n~2^20" if n <= 1048577 else "n>=2^29" if n >= 1 << 29 else "n>2^20"
+                hist[kind + ":" + cls] = hist.get(kind + ":" + cls, 0) + 1
+                nontrivial = True
+                if kind == "Z" or c.split()[5] != "1": b, sp = None, None      # not run on the model
             elif kind == "P":
                 n = len(unhex(c.split()[2]))
                 hist["P:len%%8=%d" % (n % 8)] = hist.get("P:len%%8=%d" % (n % 8), 0) + 1
@@ -293,7 +438,13 @@ else:
                 hist["C:" + c.split()[1]] = hist.get("C:" + c.split()[1], 0) + 1
                 nontrivial = True
             if nontrivial: distinct.add(c)
-            if want is not None and a != want:
+            if want is not None and a != want and kind == "P" and string_object_only(a, want):
+                found = True
+                if not string_obj_reported:
+                    string_obj_reported = True
+                    ck.violation("tlx::siphash(std::string) / siphash(std::string_view) hash the bytes of the string OBJECT (generic value template wins overload resolution), not the message: " + a[a.find("def="):][:120],
+                                 {"case": c, "impl": a, "standard": want, "repair": "fixes/C14/02-siphash-std-string-overloads.patch"}, key="siphash-std-string-object-bytes")
+            elif want is not None and a != want:
                 found = True
                 ta, tw = a.replace(":", " ").replace(",", " ").split(), want.replace(":", " ").replace(",", " ").split()
                 dif = next(("%s (expected %s)" % (x, y) for x, y in zip(ta, tw) if x != y), a[:120])
@@ -332,9 +483,11 @@ if pr is not None and not pr["ok"]:
 ck.finish({
     "evaluations": len(cases),
     "distinct_nontrivial": len(distinct),
-    "rule": "distinct case lines that are non-trivial: D (message x explicit chunkings; all four digests, raw/hex/HEX, helpers, three constructor/overload variants) counts if some chunking leaves a partial block in buf_ between two process() calls; S (all 2- or 3-splits enumerated inside the harness) if |msg| >= 2; C (compression function alone on an arbitrary chaining state); P (siphash_plain, siphash_sse2, dispatching siphash at a given message/key misalignment) if |msg| >= 1. Every implementation line is compared with Python hashlib / an independent SipHash-2-4, with the extracted Coq model, and the extracted Coq spec with hashlib.",
+    "rule": "distinct case lines that are non-trivial: D (message x explicit chunkings; all four digests, raw/hex/HEX, helpers with every argument type, constructor/process overloads, argument types and mid-stream copies chosen from the case's variant seed) counts if some chunking leaves a partial block in buf_ between two process() calls; S (all 2- or 3-splits enumerated inside the harness) if |msg| >= 2; C (compression function alone on an arbitrary chaining state); P (siphash_plain, siphash_sse2, dispatching siphash at a given message/key misalignment) if |msg| >= 1; L (long message, one process() call with many whole blocks, curlen_ 0 or not before it; lengths around 2^16 and 2^20; model only where flagged) and Z (2^29 zero bytes in one call, thorough tier) always. Every implementation line is compared with Python hashlib / an independent SipHash-2-4, with the extracted Coq model, and the extracted Coq spec with hashlib.",
     "samples": samples,
     "input_distribution": dict(stats, **hist),
+    "api_surface": API_SURFACE,
+    "special_digest_bytes": special,
     "tables_translated": sorted(getattr(ck, "c14_tables", {}).keys()),
     "coqchk": coqchk if coqchk is not None else "not run in this tier",
 }, assumptions=[
